@@ -124,6 +124,13 @@ def wideids_case(rng):
     return c
 
 
+def prefix_args(sut, ps, salt):
+    """The prefix list as the caller may give it: bytes, or text for some prefixes (Sut.W chooses by
+    content), as a list or - every third call - a tuple."""
+    out = [sut.W(p) for p in ps]
+    return tuple(out) if salt % 3 == 2 else out
+
+
 def pick_webentities(sut, rng, case, default_max):
     byw = sut.m.webentities()
     gids = sorted(byw)
@@ -183,7 +190,7 @@ def page_through(sut, w, ps, k, crawled_only, rng, stats, inserts, gid, ever=Non
         calls += 1
         if calls > MAX_CALLS:
             return acc, "no final answer after %d calls" % MAX_CALLS, calls, inserted
-        r = t.paginate_webentity_pages(w, ps, page_count=k, pagination_token=tok, crawled_only=crawled_only)
+        r = t.paginate_webentity_pages(w, prefix_args(sut, ps, calls), page_count=k, pagination_token=tok, crawled_only=crawled_only)
         stats["C09_answers"] += 1
         pages = r["pages"]
         lr = [x["lru"] for x in pages]
@@ -311,7 +318,7 @@ def audit_C10(sut, rng, stats, case):
                         if calls > MAX_CALLS:
                             out.append(D(["C10"], "no-final-answer", gid=gid, c=c))
                             return out
-                        r = t.paginate_webentity_pagelinks(w, ps, include_internal=ii, include_outbound=io,
+                        r = t.paginate_webentity_pagelinks(w, prefix_args(sut, ps, calls), include_internal=ii, include_outbound=io,
                                                            source_page_count=c, pagination_token=tok)
                         stats["C10_answers"] += 1
                         pl = r["pagelinks"]
